@@ -282,6 +282,16 @@ def r07_2(ctx, g):
     unknown_writes = [st for st, x in zip(w.body, seq) if x is None and any(isinstance(c, ast.Call) and isinstance(c.func, ast.Attribute) and c.func.attr in ("write", "writelines") for c in ast.walk(st))]
     okc = letters == ["S", "L"] and len(files) == 1 and not unknown_writes
     ctx.check(okc, "R07.2", run.where(w), "the complete file copies the S lines of every per-chromosome file first and the L lines afterwards, each pass filtering on its own record letter and writing directly", key_of(run, f"concat:{letters}:{sorted(files)}:{len(unknown_writes)}"), passes=letters)
+    # the files are concatenated in the order in which the chromosomes were written (= BO order): the list of files is
+    # not re-ordered or de-duplicated through a set between the chromosome loop and the concatenation
+    for fl in sorted(files):
+        for st in walk_own(run.node):
+            if isinstance(st, ast.Assign) and norm(st.targets[0]) == fl and isinstance(st.value, ast.Call):
+                v = norm(st.value)
+                if fl in names_in(st.value) and (v.startswith(("sorted(", "set(", "list(set(", "reversed(", "list(reversed(")) or "set(" in v):
+                    ctx.violated("R07.2", run.where(st), f"`{norm(st)}` re-orders the per-chromosome files by name before they are concatenated: the S lines of the complete file are no longer in (BO, NO) order (chr10 before chr2, or any --chromosome_order that is not alphabetical)", key_of(run, f"concat-files-reordered:{fl}"))
+            if isinstance(st, ast.Expr) and isinstance(st.value, ast.Call) and isinstance(st.value.func, ast.Attribute) and st.value.func.attr in ("sort", "reverse") and norm(st.value.func.value) == fl:
+                ctx.violated("R07.2", run.where(st), f"`{norm(st)}` re-orders the per-chromosome files before they are concatenated: the S lines of the complete file are no longer in (BO, NO) order", key_of(run, f"concat-files-reordered:{fl}"))
 
 
 def r07_3(ctx, g):
